@@ -1696,12 +1696,15 @@ def simp_add_multiple(_, expr):
             operands[base_expr] = operands.get(base_expr, 0) + int(factor)
         elif arg.is_op('<<') and arg.args[1].is_int():
             base_expr, factor = arg.args
-            operands[base_expr] = operands.get(base_expr, 0) + 2 ** int(factor)
+            # X << int is 0 when int >= size (and 2 ** int may be huge)
+            shift = int(factor)
+            operands[base_expr] = operands.get(base_expr, 0) + (2 ** shift if shift < expr.size else 0)
         elif arg.is_op("-"):
             arg = arg.args[0]
             if arg.is_op('<<') and arg.args[1].is_int():
                 base_expr, factor = arg.args
-                operands[base_expr] = operands.get(base_expr, 0) - (2 ** int(factor))
+                shift = int(factor)
+                operands[base_expr] = operands.get(base_expr, 0) - (2 ** shift if shift < expr.size else 0)
             else:
                 operands[arg] = operands.get(arg, 0) - 1
         else:
